@@ -116,15 +116,22 @@ def check_include(col, rng):
     d = tempfile.mkdtemp(prefix="c04-")
     try:
         inc = gen_doc(rng, allow=["para", "bullet", "fence", "quote"])
-        open(os.path.join(d, "inc.md"), "w").write(inc.text)
+        # the part of the file that is included: all of it, from a start line, or after a marker text (the lines of the
+        # included nodes stay relative to the FILE)
+        mode = rng.choice(["all", "all", "start-line", "start-after"])
+        lead = ["lead para one", "", "lead para two", "", "MARKC04", ""] if mode != "all" else []
+        shift = len(lead)
+        inc_text = ("\n".join(lead) + "\n" if lead else "") + inc.text
+        inc_opts = {"all": "", "start-line": ":start-line: 4\n", "start-after": ":start-after: MARKC04\n"}[mode]
+        open(os.path.join(d, "inc.md"), "w").write(inc_text)
         pre = rng.randint(0, 3)
         # (with and without a heading / other directive in front of the include: the include may be the first directive of
         #  the document; a warning raised by the HOST file after the include must name the host file and its own line)
         head = rng.choice(["# Main\n\n", "", "```{note}\nn\n```\n\n"])
-        main = head + "filler\n\n" * pre + "```{include} inc.md\n```\n\nafter marker\n\nhost {nosuchrole_c04}`x` warns\n"
+        main = head + "filler\n\n" * pre + "```{include} inc.md\n" + inc_opts + "```\n\nafter marker\n\nhost {nosuchrole_c04}`x` warns\n"
         src = os.path.join(d, "index.md")
         doc, lines = parse(main, OV, source_path=src)
-        case = {"include": inc.text, "main": main}
+        case = {"include": inc_text, "main": main}
         host_line = main.count("\n", 0, main.index("host {nosuchrole_c04}")) + 1
         for ln in lines:
             if "nosuchrole_c04" in ln:
@@ -138,9 +145,11 @@ def check_include(col, rng):
             n = node_for(doc, b["marker"], tags)
             if n is None:
                 continue
-            if n.line != b["line"]:
-                col.fail("C04.include-line", dict(case, marker=b["marker"]), f"included {n.tagname} has line {n.line}, it starts on line {b['line']} of the included file",
-                         known="C04-include-line-plus-one", function="myst_parser.mocking:MockIncludeDirective.run")
+            true_line = b["line"] + shift
+            if n.line != true_line:
+                # the recorded finding is exactly "one line late"; any other difference is a different violation
+                col.fail("C04.include-line", dict(case, marker=b["marker"]), f"included {n.tagname} has line {n.line}, it starts on line {true_line} of the included file",
+                         known="C04-include-line-plus-one" if n.line == true_line + 1 else None, function="myst_parser.mocking:MockIncludeDirective.run")
             if n.source is None or not str(n.source).endswith("inc.md"):
                 col.fail("C04.include-source", dict(case, marker=b["marker"]), f"included node source is {n.source!r}, expected the included file")
         aft = node_for(doc, "after marker", ("paragraph",))
